@@ -28,6 +28,10 @@ def targeted(extras):
     for body in ['PUSH("a" | "b") ~ POP', 'PUSH(ANY) ~ PUSH(ANY) ~ POP_ALL', 'PUSH(ANY) ~ ("x" | PEEK) ~ DROP', '(PUSH("a") ~ "x")? ~ (DROP | "a")', 'PUSH(ANY) ~ PUSH(ANY) ~ PEEK[0..1] ~ PEEK[-1..]',
                  'PUSH("a") ~ (!POP ~ ANY)* ~ POP', '(PUSH(ANY) ~ POP)*', 'PUSH(ANY) ~ PEEK[..] ~ PEEK[1..] ~ PEEK[..-1]', 'PUSH(b) ~ PEEK_ALL', '!PUSH("a") ~ (DROP | ANY)', '&PUSH(ANY) ~ (PEEK | ANY)']:
         out.append(g(body)); out.append(g(body, "", '"b"', "", '_{ " " }'))
+    # slices / whole-stack matches over two entries that read differently in the two directions; zero-width repetitions
+    for body in ['PUSH("a") ~ PUSH("b") ~ PEEK[..]', 'PUSH(ANY) ~ PUSH(ANY) ~ PEEK[0..] ~ EOI', 'PUSH("a") ~ PUSH("b") ~ PEEK_ALL', 'PUSH(ANY) ~ PUSH(ANY) ~ PEEK[-2..]', 'PUSH(ANY) ~ PUSH(ANY) ~ PEEK[..2] ~ EOI',
+                 'PUSH(ANY) ~ PUSH(ANY) ~ PEEK[1..2] ~ PEEK[0..1]', 'PUSH(ANY) ~ PUSH(ANY) ~ DROP* ~ PEEK_ALL ~ ANY', 'PUSH("a") ~ ("x" | POP | "b") ~ PEEK_ALL']:
+        out.append(g(body)); out.append(g(body, "@", '"b"', "", '_{ " " }'))
     for body in ['SOI ~ "a" ~ EOI', '"a"* ~ EOI', 'ANY ~ ANY?', "'a'..'é' ~ ^\"B\"", '"é" | "e"', '!"a" ~ ANY | "a" ~ "b"', '&b ~ ANY', '(!("a" | "b") ~ ANY)* ~ "a"', '"a"{2,3} ~ b{,2}']:
         out.append(g(body)); out.append(g(body, "@", '"b"', "$", '_{ " " }')); out.append(g(body, "$", '"b" ~ "a"?', "", '{ " " }'))
     # a grammar rule named like a primitive built-in together with the composite built-ins that could be defined through it
@@ -121,7 +125,9 @@ def run_one(ctx, extras):
     count = int(os.environ.get("VERIF_C02_GRAMMARS", "300" if ctx.quick else "1200"))
     import random
     tg = targeted(extras); random.Random(ctx.seed).shuffle(tg)
-    gs = tg[:count // 2] + [g for g in gramgen.family(ctx.seed, count, extras=extras) if g not in tg][:count - min(len(tg), count // 2)]
+    # every targeted shape is always part of the run; the seeded family fills the rest (at least a third of the budget)
+    gs = tg + [g for g in gramgen.family(ctx.seed, count, extras=extras) if g not in tg][:max(count - len(tg), count // 3)]
+    tgset = set(tg)
     native.build(extras)
     stages = c01.front(gs, extras)
     ok_idx = [i for i, s in enumerate(stages) if "error" not in s]
@@ -135,7 +141,8 @@ def run_one(ctx, extras):
         if not oks[gi]: continue
         names = [n for n, _, _ in s["optimized"]]
         for st in [n for n in ("a", "b") if n in names]:
-            jobs.append((P, gi, s["optimized"], st, N))
+            # two pushes followed by a read of both entries need one more input byte than the general bound
+            jobs.append((P, gi, s["optimized"], st, N + 1 if (g.count("PUSH(") >= 2 and g in tgset) else N))
     t0 = time.time()
     res = par.pmap(explore_pair, jobs, NCPU)
     errs = [(gs[j[1]], r[1]) for j, r in zip(jobs, res) if r[0] == "err"]
